@@ -65,6 +65,15 @@ def famMatrix (fam0 : String) (d p : Nat) : Except String (Mat GF256 p d) :=
         let rows : Array ByteArray := Array.ofFn fun r : Fin p => fillBytes (UInt64.ofNat seed) (1000 + r.val) d
         .ok (Mat.ofFn fun r c => let b := rows[r.val]!.get! c.val; if b < 128 then 0 else gfOfByte b)
       | none => .error "badfam"
+    else if fam.startsWith "blocks:" then
+      -- a custom matrix whose aligned 10x10 tiles are all-zero or all-non-zero
+      match (fam.drop 7).toString.toNat? with
+      | some seed =>
+        let tiles : ByteArray := fillBytes (UInt64.ofNat seed) 999 64
+        let rows : Array ByteArray := Array.ofFn fun r : Fin p => fillBytes (UInt64.ofNat seed) (1000 + r.val) d
+        .ok (Mat.ofFn fun r c =>
+          if tiles.get! (((r.val / 10) * 8 + c.val / 10) % 64) < 128 then 0 else gfOfByte (rows[r.val]!.get! c.val ||| 1))
+      | none => .error "badfam"
     else .error "badfam"
 
 structure GenOut where
@@ -250,7 +259,7 @@ def opRec (args : List String) : String :=
           else "-"
         -- for a non-MDS generator (par1, custom) only L1 knows whether the sub-matrix is singular
         if l1 == "-" then s!"{l0} | l1=-"
-        else if fam == "par1" || fam.startsWith "custom:" || fam.startsWith "sparse:" then s!"{l1} | l1=only"
+        else if fam == "par1" || fam.startsWith "custom:" || fam.startsWith "sparse:" || fam.startsWith "blocks:" then s!"{l1} | l1=only"
         else s!"{l0} | l1={if l1 == l0 then "1" else "0"}"
     | _, _, _, _ => "bad-op"
   | _ => "bad-op"
@@ -654,6 +663,7 @@ where stepOp (toks : List String) : String :=
   | "concver" :: _ => "ok"
   | "concstream" :: _ => "ok"
   | "concstreamf" :: _ => "ok"
+  | "concsame" :: _ => "ok"
   | "sencode" :: args => opSEncode args
   | "sverify" :: args => opSVerify args
   | "srecon" :: args => opSRecon args
